@@ -20,12 +20,13 @@ ALL_STATUSES = [100, 101, 199, 300, 301, 302, 304, 399, 400, 401, 403, 404, 409,
 
 def case_fn(case: dict, d):
     root = d / "proj"
-    gen = e2e.generate(case["doc"], root, package="pkg.client")
+    pkg, core = case.get("package", "pkg.client"), case.get("core")
+    gen = e2e.generate(case["doc"], root, package=pkg, core=core)
     if not gen["ok"]:
         return {"gen_ok": False, "gen_error": gen["error"]}
     calls = [{"id": i, "module": c["module"], "cls": c["cls"], "method": c["method"], "args": c["args"], "reply": c["reply"],
               "transport": c["transport"]} for i, c in enumerate(case["calls"])]
-    pr = e2e.probe(root, "pkg.client", None, [{"task": "calls", "calls": calls}], timeout=300)
+    pr = e2e.probe(root, pkg, core, [{"task": "calls", "calls": calls}], timeout=300)
     return {"gen_ok": True, "probe": pr}
 
 
@@ -56,12 +57,14 @@ def build_cases(ctx, n: int) -> list[dict]:
             base = opsrig.call_plan(r, doc, path, m, op, pl, supply_optional=0.0)
             for s in statuses:
                 for tr in ("bundled", "passthrough"):
-                    body = b"" if s < 200 or s in (204, 304) else json.dumps({"message": "x"}).encode()
+                    body = b"" if s < 200 or s in (204, 304) else r.choice([json.dumps({"message": "x"}), json.dumps({"detail": "d", "title": "t"}), "[1, 2]", '"oops"', "7", "null",
+                                                                            "not json at all", "", json.dumps({"error": {"code": 1}})]).encode()
                     import base64
                     calls.append({**base, "transport": tr, "status": s, "declared": s in declared_err, "has_default": has_default,
                                   "default_content": default_content, "op": {"path": path, "method": m, "operationId": op["operationId"]},
                                   "reply": {"status": s, "headers": {"content-type": "application/json"}, "body_b64": base64.b64encode(body).decode()}})
-        cases.append({"id": f"c06-{i}", "doc": doc, "calls": calls})
+        pkg, core = [("pkg.client", None), ("client", None), ("client", "core"), ("pkg.client", "shared.core"), ("a.b.client", None)][(i + 1) % 5]
+        cases.append({"id": f"c06-{i}", "doc": doc, "calls": calls, "package": pkg, "core": core})
     return cases
 
 
@@ -72,9 +75,13 @@ def judge(call: dict, out: dict) -> list[tuple[str, str]]:
     bad = []
     if oc.get("kind") == "arg_error":
         return []
+    default_returns = call["has_default"] and call["default_content"] and not call["declared"] and call["transport"] == "passthrough"
     if oc.get("kind") != "raised":
-        cls = "default-with-content-returns" if (call["has_default"] and call["default_content"] and not call["declared"] and call["transport"] == "passthrough") else "returned-for-non-2xx"
+        cls = "default-with-content-returns" if default_returns else "returned-for-non-2xx"
         return [(cls, f"status {s} via {call['transport']}: the call returned {oc.get('type')} instead of raising")]
+    if not oc.get("is_http_error") and default_returns:
+        # F40: `case _` goes through the primary strategy's return; a body that does not fit the success type fails to decode instead
+        return [("default-with-content-returns", f"status {s} via passthrough: the default arm tried to return a value and raised {oc.get('type')}")]
     if not oc.get("is_http_error"):
         return [("not-http-error", f"status {s} via {call['transport']}: raised {oc.get('type')} ({oc.get('msg', '')[:120]}), not an HTTPError")]
     if oc.get("status_code") != s:
